@@ -64,6 +64,12 @@ def run(rep):
         b += 1
         E, peaks, perc = grid_drive.channel_grid(rng)
         recs.append(grid_drive.perc_record_fixed(b, E, peaks, perc))
+    for k in range(8 if quick else 100):
+        b += 1
+        E, peaks, perc = grid_drive.near_tie_grid(rng)
+        r_ = grid_drive.perc_record_fixed(b, E, peaks, perc)
+        r_['meta']['kind'] = 'two channels, near tie'
+        recs.append(r_)
     nt = sum(1 for r_ in recs if len(r_['sites']) >= 3 or r_.get('raised') or r_.get('none'))
     for r_ in recs[1:4] + recs[-2:]:
         r_ = dict(r_)
